@@ -169,11 +169,16 @@ def main():
         i = args.index("--labels")
         labels = args[i + 1]
         args = args[:i] + args[i + 2:]
+    kind = None
+    if "--kind" in args:                       # seeded | harmless
+        i = args.index("--kind")
+        kind = args[i + 1]
+        args = args[:i] + args[i + 2:]
     ids = [a for a in args if a.startswith("C")] or ALL
     _changes = changes
 
     def changes_(ids):
-        return [c for c in _changes(ids) if labels is None or c[2] in labels]
+        return [c for c in _changes(ids) if (labels is None or c[2] in labels) and (kind is None or c[0] == kind)]
     if mode == "confirm":
         def safe(ch):
             try:
